@@ -27,7 +27,7 @@ var FamilyNames = []string{
 	"ladder-pages", "ladder-names", "ladder-outline",
 	"chain-ref", "chain-first", "chain-next", "chain-kids", "chain-namekids",
 	"chain-prev", "chain-globals", "chain-length", "chain-objstm",
-	"self", "wide-kids", "wide-filters", "deep-array", "deep-dict", "deep-content",
+	"self", "wide-kids", "wide-filters", "deep-array", "deep-dict", "deep-content", "q-flood",
 	"acroform-loop", "xobject-loop", "type3-loop", "action-chain", "pattern-loop",
 	"parent-loop", "contents-array", "colorspace-chain", "huge-offsets",
 	"nest-function", "nest-action", "nest-colorspace", "presteps-chain", "objstm-filter", "objstm-offsets", "xref-dct", "objstm-dct", "xref-index-sum", "cmap-wide", "catalog-pages",
@@ -354,6 +354,13 @@ func (fam *Family) build() ([]byte, error) {
 	case "deep-content":
 		content = strings.Repeat("[", n) + "1" + strings.Repeat("]", n) + " TJ " + strings.Repeat("q ", n) + strings.Repeat("BT ", 5) +
 			strings.Repeat("<< /K ", n) + "1" + strings.Repeat(" >>", n) + " /P BDC " + strings.Repeat("/T BMC ", n)
+	case "q-flood":
+		// nothing but q operators, deflated (thousands of them per byte of the
+		// file): every saved graphics state is a copy of its own
+		content = strings.Repeat("q ", 1000*n)
+		if fam.Cyc {
+			content = strings.Repeat("q BT ET ", 500*n)
+		}
 	case "acroform-loop":
 		// AcroForm -> field/widget -> /P page -> /Annots -> the same widget
 		catExtra = fmt.Sprintf("/AcroForm %s ", ref(base))
@@ -511,7 +518,11 @@ func (fam *Family) build() ([]byte, error) {
 		f.obj(pages, fmt.Sprintf("<< /Type /Pages /Kids [%s] /Count 1 >>", ref(pg)), true)
 	}
 	f.obj(pg, fmt.Sprintf("<< /Type /Page /Parent %s /MediaBox [0 0 100 100] /Resources %s /Contents %s %s>>", ref(pagesRoot), res, contents, pageExtra), true)
-	f.stm(cont, "", "", []byte(content))
+	if fam.Name == "q-flood" {
+		f.stm(cont, "/Filter /FlateDecode", "", deflate([]byte(content)))
+	} else {
+		f.stm(cont, "", "", []byte(content))
+	}
 	return f.render(l, cat, fam.XS, nil, nil), nil
 }
 
